@@ -287,8 +287,19 @@ def run_stop(case):
     gen = case["gen"]
     calls = []
 
+    given_args = tuple(case.get("fn_args", ()))
+    given_kw = dict(case.get("fn_kwargs", {}))
+    received = []
+    exhausted = [False]
+
     def fn(*args, **kwargs):
         i = len(calls)
+        if (args, kwargs) != (given_args, given_kw):
+            received.append((args, kwargs))
+        if case.get("stop_after") is not None and i >= case["stop_after"]:
+            # a finite record that has run out
+            exhausted[0] = True
+            raise StopIteration("no more samples in the record")
         if gen["kind"] == "constant":
             v = gen["c"]
         elif gen["kind"] == "alternating":
@@ -303,8 +314,25 @@ def run_stop(case):
                 min_samples=case["min_samples"],
                 max_samples=case["max_samples"], get=case["get"],
                 verbosity=case.get("verbosity", 0))
-    with under_test("estimate_from_repeats"):
-        out = u.estimate_from_repeats(fn, **opts)
+    ran_out = None
+    try:
+        with under_test("estimate_from_repeats", expect=(StopIteration,)):
+            out = u.estimate_from_repeats(fn, *given_args, **given_kw, **opts)
+    except StopIteration as e:
+        ran_out = e
+    require(not received, "function-arguments",
+            lambda: f"the sampled function is to be called with "
+                    f"{given_args!r}, {given_kw!r}; it was called with "
+                    f"{received[0]!r}")
+    if exhausted[0] or ran_out is not None:
+        # neither converged nor at the limit: the error of the source must
+        # reach the caller, there is no estimate to hand back
+        require(ran_out is not None and exhausted[0],
+                "silent-stop-on-exhausted-source",
+                f"the source of samples ran out after {len(calls)} draws and "
+                f"estimate_from_repeats returned as if it had finished")
+        return {"nontrivial": True,
+                "classes": [f"gen={gen['kind']}", "stop=source-ran-out"]}
     n = len(calls)
     require(1 <= n <= case["max_samples"], "exceeds-max-samples",
             f"{n} calls for max_samples={case['max_samples']}")
@@ -414,7 +442,18 @@ def stop_strategy(draw):
             "max_samples": draw(st.integers(1, 60)),
             "get": draw(st.sampled_from(["samples", "samples", "stats",
                                          "mean"])),
-            "verbosity": draw(st.sampled_from([0, 0, 0, 2]))}
+            "verbosity": draw(st.sampled_from([0, 0, 0, 2])),
+            # what the sampled function is called with (names a numerical
+            # routine plausibly has)
+            "fn_args": draw(st.lists(st.integers(0, 9), max_size=2)),
+            "fn_kwargs": draw(st.dictionaries(
+                st.sampled_from(["atol", "tol", "eps", "size", "seed",
+                                 "scale", "n", "shape", "axis", "dtype",
+                                 "maxiter", "out"]),
+                st.integers(0, 5) | st.sampled_from([0.05, 1e-8]),
+                max_size=2)),
+            "stop_after": draw(st.sampled_from(
+                [None, None, None, 0, 1, 3, 7, 20]))}
 
 
 PHASES = [
